@@ -224,7 +224,18 @@ func (r *AuthResponse) Cookie(name string) *http.Cookie {
 	return out
 }
 
+// AuthMonitor, when set, sees every response of any AuthEnv.
+var AuthMonitor func(e *AuthEnv, method, target string, resp *AuthResponse)
+
 func (e *AuthEnv) Do(req *http.Request) *AuthResponse {
+	resp := e.do(req)
+	if AuthMonitor != nil {
+		AuthMonitor(e, req.Method, req.URL.RequestURI(), resp)
+	}
+	return resp
+}
+
+func (e *AuthEnv) do(req *http.Request) *AuthResponse {
 	e.IdP.Take()
 	rec := httptest.NewRecorder()
 	resp := &AuthResponse{}
